@@ -67,6 +67,10 @@ struct Ctx {
     /// the current case's txid already moved once (later stages inherit the change; only the
     /// first role that moves it is reported)
     txid_moved: bool,
+    /// effect fingerprint of the current case at creation
+    fp0: Option<Fp>,
+    /// fields a third-party Constructor set in the current case (for diagnostics)
+    foreign: String,
 }
 
 fn viol(c: &mut Ctx, class: &str, detail: String, replay: serde_json::Value) {
@@ -218,6 +222,54 @@ fn txid_of(p: &Pczt) -> Result<TxId, String> {
     let td = p.clone().into_effects().map_err(|e| format!("{e:?}"))?;
     let d = td.digest(TxIdDigester);
     Ok(to_txid(td.version(), td.consensus_branch_id(), &d))
+}
+
+/// The effects of a PCZT, component by component, so that a moved txid can be attributed.
+struct Fp {
+    txid: TxId,
+    lock_time: u32,
+    expiry: u32,
+    parts: Vec<(&'static str, Vec<u8>)>,
+}
+
+fn fingerprint(p: &Pczt) -> Result<Fp, String> {
+    let td = p.clone().into_effects().map_err(|e| format!("{e:?}"))?;
+    let d = td.digest(TxIdDigester);
+    let mut parts: Vec<(&'static str, Vec<u8>)> = vec![("header", d.header_digest.as_bytes().to_vec())];
+    if let Some(t) = &d.transparent_digests {
+        parts.push(("transparent.prevouts", t.prevouts_digest.as_bytes().to_vec()));
+        parts.push(("transparent.sequence", t.sequence_digest.as_bytes().to_vec()));
+        parts.push(("transparent.outputs", t.outputs_digest.as_bytes().to_vec()));
+    } else {
+        parts.push(("transparent.prevouts", vec![]));
+        parts.push(("transparent.sequence", vec![]));
+        parts.push(("transparent.outputs", vec![]));
+    }
+    parts.push(("sapling", d.sapling_digest.map(|x| x.as_bytes().to_vec()).unwrap_or_default()));
+    parts.push(("orchard", d.orchard_digest.map(|x| x.as_bytes().to_vec()).unwrap_or_default()));
+    parts.push(("ironwood", d.ironwood_digest.map(|x| x.as_bytes().to_vec()).unwrap_or_default()));
+    Ok(Fp {
+        txid: to_txid(td.version(), td.consensus_branch_id(), &d),
+        lock_time: td.lock_time(),
+        expiry: u32::from(td.expiry_height()),
+        parts,
+    })
+}
+
+/// Which effect moved between two fingerprints (first difference, most specific name).
+fn moved_component(a: &Fp, b: &Fp) -> &'static str {
+    if a.lock_time != b.lock_time {
+        return "lock_time";
+    }
+    if a.expiry != b.expiry {
+        return "expiry_height";
+    }
+    for ((n, x), (_, y)) in a.parts.iter().zip(b.parts.iter()) {
+        if x != y {
+            return n;
+        }
+    }
+    "unknown"
 }
 
 fn enc_version(bytes: &[u8]) -> u32 {
@@ -387,10 +439,17 @@ fn check_txid(c: &mut Ctx, role: &str, p: &Pczt, txid0: &Result<TxId, String>, m
                 c.r.count("txid_differs_downstream_of_reported_change", 1);
             } else if a != b {
                 c.txid_moved = true;
+                let (what, detail) = match (&c.fp0, fingerprint(p)) {
+                    (Some(f0), Ok(f1)) => (
+                        moved_component(f0, &f1),
+                        format!("lock_time {} -> {}, expiry {} -> {}", f0.lock_time, f1.lock_time, f0.expiry, f1.expiry),
+                    ),
+                    _ => ("unknown", String::new()),
+                };
                 viol(
                     c,
-                    &format!("effects:txid-changed-by:{role}"),
-                    format!("txid before {a}, after {role}: {b}"),
+                    &format!("effects:txid-changed-by:{role}:{what}"),
+                    format!("txid before {a}, after {role}: {b}; moved effect: {what} ({detail}); foreign fields: {}", c.foreign),
                     stage_json(role, made),
                 );
             }
@@ -967,8 +1026,19 @@ fn bracketings(copies: &[Pczt], seq: &[usize]) -> Vec<(String, Result<Pczt, ()>)
     out
 }
 
-/// Every permutation × every bracketing + the flat fold. `expect`: the union oracle's verdict.
 fn combine_all(c: &mut Ctx, copies: &[Pczt], label: &str, made: &Made) -> Option<Pczt> {
+    combine_all_ex(c, copies, label, made, false)
+}
+
+/// Every permutation × every bracketing + the flat fold.
+///
+/// Expected verdict: the copies conflict if the field-wise union finds two different values in one
+/// place, **or** if two copies imply different transaction identifiers (a field whose absence has a
+/// defined meaning is absent in one copy and set to something else in another: the union alone
+/// would call that compatible). A successful combination must equal the union and imply the txid
+/// of every input. `lenient_refusal`: the copies describe the same transaction but spell one field
+/// differently (absent vs explicit default); refusing them is tolerated.
+fn combine_all_ex(c: &mut Ctx, copies: &[Pczt], label: &str, made: &Made, lenient_refusal: bool) -> Option<Pczt> {
     let n = copies.len();
     let trees: Vec<V> = copies.iter().map(|p| tree(p).expect("tree")).collect();
     // oracle
@@ -976,6 +1046,14 @@ fn combine_all(c: &mut Ctx, copies: &[Pczt], label: &str, made: &Made) -> Option
     for t in &trees[1..] {
         oracle = oracle.and_then(|acc| union(&acc, t, ""));
     }
+    let txids: Vec<Option<TxId>> = copies.iter().map(|p| txid_of(p).ok()).collect();
+    let known: Vec<TxId> = txids.iter().flatten().copied().collect();
+    let txids_differ = known.windows(2).any(|w| w[0] != w[1]);
+    if oracle.is_ok() && txids_differ {
+        c.r.count("combine_conflicts_by_implied_txid_only", 1);
+        oracle = Err(format!("implied-txid-differs:{label}"));
+    }
+    let txid_conflict = txids_differ;
     let mut first_ok: Option<Pczt> = None;
     let mut combos = 0u64;
     let mut seen: std::collections::BTreeSet<String> = Default::default();
@@ -1008,9 +1086,23 @@ fn combine_all(c: &mut Ctx, copies: &[Pczt], label: &str, made: &Made) -> Option
                         }
                         continue;
                     }
+                    // the result must imply the identifier every input implies
+                    if let (Some(t0), Ok(tr)) = (known.first(), txid_of(&got)) {
+                        if tr != *t0 {
+                            let class = format!("combine:result-implies-different-txid:{label}");
+                            if seen.insert(class.clone()) {
+                                report(c, class, format!("{label}: combining {desc} implies txid {tr}, the inputs imply {t0}"));
+                            }
+                            continue;
+                        }
+                        c.r.count("combine_result_txid_checked", 1);
+                    }
                     if first_ok.is_none() {
                         first_ok = Some(got);
                     }
+                }
+                (Ok(_), Err(())) if lenient_refusal => {
+                    c.r.count("combine_refused_differently_spelled_copies", 1);
                 }
                 (Ok(_), Err(())) => {
                     if seen.insert("refused".into()) {
@@ -1021,10 +1113,19 @@ fn combine_all(c: &mut Ctx, copies: &[Pczt], label: &str, made: &Made) -> Option
                         );
                     }
                 }
-                (Err(path), Ok(_)) => {
+                (Err(path), Ok(got)) => {
                     let class = format!("combine:conflict-accepted:{}", generic_path(path));
                     if seen.insert(class.clone()) {
-                        report(c, class, format!("{label}: {desc} succeeded although two copies carry different values at {path}"));
+                        let detail = if txid_conflict {
+                            format!(
+                                "{label}: {desc} succeeded although the copies imply different transactions (txids {:?}); the result implies {:?}",
+                                txids.iter().map(|t| t.map(|x| x.to_string())).collect::<Vec<_>>(),
+                                txid_of(&got).ok().map(|x| x.to_string())
+                            )
+                        } else {
+                            format!("{label}: {desc} succeeded although two copies carry different values at {path}")
+                        };
+                        report(c, class, detail);
                     }
                 }
                 (Err(_), Err(())) => {}
@@ -1102,7 +1203,9 @@ fn extract(c: &mut Ctx, p: &Pczt, txid0: &Result<TxId, String>, made: &Made, rea
                 c.r.count("extracted_with_real_proofs", 1);
             }
             if let Ok(t0) = txid0 {
-                if tx.txid() != *t0 {
+                if tx.txid() != *t0 && c.txid_moved {
+                    c.r.count("txid_differs_downstream_of_reported_change", 1);
+                } else if tx.txid() != *t0 {
                     viol(
                         c,
                         "extract:txid-differs-from-pczt",
@@ -1723,6 +1826,8 @@ fn main() {
         pks: vec![],
         vks: vec![],
         txid_moved: false,
+        fp0: None,
+        foreign: String::new(),
     };
     let thorough = args.tier == Tier::Thorough;
     let ops = red_ops();
